@@ -27,7 +27,7 @@ TRUE = 2**24
 DEPTHS = (1, 16, 88, 256, TRUE)
 SETTINGS = ("bold", "italics", "underline", "blink", "standout", "strikethrough")
 
-REQUIRE = {
+_REQ = {
     "cases_judged": 50000,
     "clause:roundtrip_eq": 20000,
     "clause:hash_eq": 20000,
@@ -56,6 +56,9 @@ REQUIRE = {
     "reach:display.common._color_desc_true": 1000,
     "reach:display.common.AttrSpec.get_rgb_values": 1000,
 }
+# thorough: the 2**24 sweep must have covered at least one eighth of all values (it covers all of them unless the
+# machine is badly overloaded; observed.sweep_shards_complete == 16 says the sweep was complete)
+REQUIRE = {"quick": dict(_REQ), "thorough": dict(_REQ, sweep_values=2**24 // 8)}
 RULE = (
     "a case = one literal (foreground string, background string, declared depth) triple given to the real AttrSpec "
     "constructor and judged by the reference reader + xterm tables; enumerated exhaustively in BOTH tiers: every colour "
@@ -63,7 +66,9 @@ RULE = (
     "and as background at each of the 5 depths (illegal depth => must raise AttrSpecError), all 1957 ordered arrangements "
     "of all 64 subsets of the six settings x 5 depths x 3 colours, per-component sweeps 0..255 of #rrggbb; sampled: "
     "#rrggbb (quick: ~20k random values per depth; thorough: all 2**24 values once as foreground and once, through a "
-    "bijection, as background at depths 88, 256, 2**24 and at half density per side at depths 1 and 16), fg x bg pairs, "
+    "bijection, as background at depths 88, 256, 2**24 and at half density per side at depths 1 and 16, visited in 16 "
+    "stride-16 passes so that an exhausted time budget leaves a uniform sample; complete iff "
+    "observed.sweep_shards_complete == 16), fg x bg pairs, "
     "upper-case / whitespace variants, and malformed strings from a grammar (unknown / misspelt names, out-of-range and "
     "wrong-length numerals, non-hex digits, duplicated settings, two colours, settings in the background, int()-syntax "
     "oddities, random junk, invalid depths).  distinct = distinct triples (hashed); non-trivial = not "
@@ -594,8 +599,8 @@ def judge(fg: str, bg: str, depth: int, C: Counter | None = None, level: int = 0
             bad(f"C18|idempotent|observe-raised:{type(e).__name__}|{kinds}|depth={depth}", f"{e}")
     # ---- equal specifications have equal hashes, also across declared depths (same strings, other depth)
     if level == 0 and expect == "accept":
-        for d2 in DEPTHS[1:]:
-            if d2 == depth:
+        for d2 in DEPTHS:
+            if d2 <= depth:  # every unordered pair of depths once
                 continue
             try:
                 o = AttrSpec(fg, bg, d2)
@@ -625,8 +630,16 @@ def judge(fg: str, bg: str, depth: int, C: Counter | None = None, level: int = 0
             )
     # ---- the descriptions, read as inputs, denote what is stored (one level)
     if level == 0 and expect == "accept" and b is not None and (fd, bd) != (fg, bg):
-        out.extend(judge(fd, bd, depth, C, level=1))
+        key = (fd, bd, depth)
+        if C is None:
+            out.extend(judge(fd, bd, depth, None, level=1))
+        elif key not in _NORMAL_FORMS_JUDGED:  # same triple, same deterministic verdict: judge each normal form once per process
+            _NORMAL_FORMS_JUDGED.add(key)
+            out.extend(judge(fd, bd, depth, C, level=1))
     return out
+
+
+_NORMAL_FORMS_JUDGED: set = set()
 
 
 def clause_id(sig: str) -> str:
@@ -837,7 +850,8 @@ def run(ctx):
             evaluate(ctx, "", t, d)
             ctx.count("finite_domain_tokens_x_depth")
     done["tokens(4727)x{fg,bg}x5depths"] = True
-    ctx.sample({"fg": "#ddb", "bg": "g#80", "depth": 88})
+    if ctx.shard == 0:
+        ctx.sample({"fg": "#ddb", "bg": "g#80", "depth": 88})
     # upper-case spellings of the hex forms (sampled 1/8)
     for d in DEPTHS:
         for n in range(4096):
@@ -869,7 +883,8 @@ def run(ctx):
                 dup.insert((idx // 7) % (len(dup) + 1), arr[k])
                 evaluate(ctx, ",".join([colours[3], *dup]), "", d)
     done["1957 ordered arrangements of the 64 setting subsets x 5 depths x 4 colour spellings"] = True
-    ctx.sample({"fg": "yellow, underline, bold", "bg": "dark blue", "depth": 16})
+    if ctx.shard == 0:
+        ctx.sample({"fg": "yellow, underline, bold", "bg": "dark blue", "depth": 16})
 
     # ---- 3. malformed input grammar
     bad_inputs = list(UNKNOWN_NAMES) + list(INT_SYNTAX)
@@ -914,10 +929,12 @@ def run(ctx):
                 if ctx.mine(idx):
                     evaluate(ctx, t, "", d)
                     evaluate(ctx, "", t if t != "bold" else "", d)
-    ctx.sample({"fg": "g#z0z0z", "bg": "", "depth": 88})
+    if ctx.shard == 0:
+        ctx.sample({"fg": "g#z0z0z", "bg": "", "depth": 88})
 
     # ---- 4. #rrggbb: per-component sweeps and interesting-value grid (deterministic), then samples
     ivals = interesting_components()
+    grid_complete = True
     ctx.extra["interesting_component_values"] = len(ivals)
     for d in DEPTHS:
         for comp in range(3):
@@ -939,12 +956,18 @@ def run(ctx):
                     idx += 1
                     if not ctx.mine(idx):
                         continue
+                    if not ctx.more(0.7):
+                        grid_complete = False
+                        continue
                     for b in ivals[:: ctx.pick(9, 3)]:
                         evaluate(ctx, "#%02x%02x%02x" % (r, g, b), "#%02x%02x%02x" % (b, r, g), d)
     done["#rrggbb: each component 0..255 with the others at 00/87/ff, 5 depths"] = True
+    ctx.extra["interesting_value_grid_complete_in_budget"] = grid_complete
     n_samp = ctx.pick(20000, 60000) // ctx.nshards
     for d in DEPTHS:
         for i in range(n_samp):
+            if not ctx.more(0.8):
+                break
             v = rng.randrange(TRUE)
             s = f"#{v:06x}"
             if i % 3 == 0:
@@ -954,7 +977,8 @@ def run(ctx):
             else:
                 evaluate(ctx, s, f"#{rng.randrange(TRUE):06x}", d)
             ctx.count("rgb24_random_samples")
-    ctx.sample({"fg": "#9f0000", "bg": "#123456", "depth": 256})
+    if ctx.shard == 0:
+        ctx.sample({"fg": "#9f0000", "bg": "#123456", "depth": 256})
 
     # ---- 5. fg x bg pairs over representative tokens (exhaustive over the representatives)
     reps = ["", "default", "black", "dark red", "light gray", "dark gray", "white", "h0", "h7", "h15", "h16", "h87", "h88", "h231",
@@ -1026,14 +1050,32 @@ def sweep(ctx, watched):
     mask = {p: [sum(1 << i for i in CUBE_OK[p][v]) for v in range(256)] for p in PALS}
     pal_rgb = X.PALETTE
     memo = {88: {}, 256: {}}
+    tokmemo = {88: {}, 256: {}}
+
+    def normal_form_clean(d, fd, bd):
+        """the normalised descriptions, read as inputs, are judged in full once per token and side"""
+        tm = tokmemo[d]
+        r = tm.get(("f", fd))
+        if r is None:
+            r = tm[("f", fd)] = not judge(fd, "", d)
+        if r:
+            r = tm.get(("b", bd))
+            if r is None:
+                r = tm[("b", bd)] = not judge("", bd, d)
+        return r
+
     C = ctx.counters
     rejudged = 0
-    rejudge_cap = 4000
+    rejudge_cap = 1000
     anomalies = 0
     complete = True
     n = 0
-    for v in range(lo, hi):
-        if v & 0xFFF == 0 and not ctx.more(0.9):
+    # 16 passes of stride 16 in bit-reversed order: whenever the time budget ends, what has been covered is a
+    # uniform stride sample of the slice, and after the last pass it is the whole slice
+    order = [int(f"{k:04b}"[::-1], 2) for k in range(16)]
+    seq = itertools.chain.from_iterable(range(lo + off, hi, 16) for off in order)
+    for v in seq:
+        if n & 0xFF == 0 and not ctx.more(0.8):
             complete = False
             break
         w = perm24(v)
@@ -1063,7 +1105,7 @@ def sweep(ctx, watched):
                     b = memo[d].get((fd, bd))
                     if b is None:
                         b = AttrSpec(fd, bd, d)
-                        if b.foreground == fd and b.background == bd and not judge(fd, bd, d):
+                        if b.foreground == fd and b.background == bd and normal_form_clean(d, fd, bd):
                             memo[d][(fd, bd)] = b
                         else:
                             b = None
@@ -1129,8 +1171,8 @@ def sweep(ctx, watched):
     C["clause:nearest_cube(sweep)"] += 4 * n
     C["clause:rejected_beyond_depth(sweep)"] += 2 * n
     C["sweep_rebuilt_specs_memoised"] += len(memo[88]) + len(memo[256])
-    if not complete:
-        ctx.inconc(f"sweep-incomplete-in-budget:shard={ctx.shard}:done={n}/{hi - lo}")
+    C["sweep_shards_complete"] += int(complete)
+    C["sweep_shards_stopped_by_time_budget"] += int(not complete)
     ctx.extra[f"sweep_shard{ctx.shard:02d}"] = {"lo": lo, "hi": hi, "done": n, "complete": complete, "seconds": round(ctx.elapsed(), 1)}
 
 
